@@ -109,7 +109,7 @@ def run_case(case):
     import torch
     from torchjd import mtl_backward
 
-    from mc.seams import RecordingAggregator
+    from mc.seams import RecordingAggregator, SetOrderSeam
 
     desc, seed = case["desc"], case["seed"]
     ref = M.MtlRef(desc, seed)
@@ -181,7 +181,13 @@ def run_case(case):
             feats_arg = B["feats"][0] if len(B["feats"]) == 1 else tuple(B["feats"])
         cfg = f"perm={perm} shared={smode} tasks={tmode} agg={aggname} chunk={chunk} {dtype} containers={cont}"
         where = f"{P.prog_str(desc['trunk'])} feats={desc['feats']} heads={[(h['tpl'], h['f']) for h in desc['heads']]} | {cfg}"
+        # every set(...) built inside torchjd.autojac iterates in listing order (even configurations) or reversed (odd ones)
+        sgn = 1 if ci % 2 == 0 else -1
+        rank = {}
+        for j, x in enumerate([vals[l] for l in range(t.nleaves)] + list(B["feats"]) + list(B["losses"]) + [p_ for _, p_ in allp]):
+            rank.setdefault(id(x), sgn * j)
         try:
+          with SetOrderSeam(lambda x: rank.get(id(x), 10 ** 6)):
             mtl_backward(losses=losses, features=feats_arg, aggregator=agg, tasks_params=tparams, shared_params=shared,
                          parallel_chunk_size=chunk)
         except Exception as e:
